@@ -83,6 +83,13 @@ def build_corpus(tier, rng):
         c.add_q(k, "iterops", ["0:b"] * (n + 2), note="drain-back")
         c.add_q(k, "iterops", ["0:n", "0:u0", "0:u1", "0:b", "0:u0", "0:n", "0:u2", "0:l"], note="mixed-back")
         c.add_q(k, "iterops", ["0:b", "0:u1", "0:u0", "0:n", "0:l", "0:u0", "0:u0"], note="mixed-back")
+        # "each exactly once" also after a jump past the end: nothing is yielded again, from either end (C05 covers the contract in depth)
+        M = 2 ** 64 - 1
+        c.add_q(k, "iterops", ["0:n", "0:t%d" % M, "0:l", "0:n", "0:b", "0:l"], note="past-the-end")
+        c.add_q(k, "iterops", ["0:b", "0:t%d" % (M - 1), "0:l", "0:n", "0:b", "0:t0", "0:l"], note="past-the-end")
+        c.add_q(k, "iterops", ["0:u%d" % M, "0:l", "0:n", "0:b"], note="past-the-end")
+        c.add_q(k, "adapt", ["skip:%d" % M], note="past-the-end")
+        c.add_q(k, "adapt", ["stepby:%d" % M], note="past-the-end")
     return c
 
 
